@@ -35,7 +35,7 @@ def cases(rng, tier):
             if n < 2:
                 x = [Fraction(0), Fraction(3)]
                 n = 2
-        yield {"argrep": S.pick_argrep(rng, 0.7),
+        yield {"argrep": S.pick_argrep(rng, 0.7), "container": rng.choice(["array", "array", "array", "labels"]),
                "x": [str(v) for v in x], "y": [str(v) for v in rng.values(n)], "r": rng.randint(1, 12),
                "int": integer, "via": rng.choice(["process", "weaver"]), "a": rng.randint(1, 4), "b": rng.randint(1, 3)}
 
@@ -121,6 +121,8 @@ def run_impl(c):
     x, y = V(c)
     xa = S.arr([int(v) for v in x]) if c["int"] else S.arr(floats(x))
     ya = S.arr(floats(y))
+    if c.get("container") == "labels" and c["via"] == "process":
+        xa, ya = S.LabelSeries(xa), S.LabelSeries(ya)      # columns of a sorted data frame
     R = S.count(c["r"], c.get("argrep", "plain"), narrow=False)      # the count as int, numpy.int64 / int32, a 0-d array (the pinned code overflows with int8 counts)
     try:
         if c["via"] == "process":
